@@ -53,7 +53,26 @@ pub fn run(ctx: &mut Ctx) {
             cases.push((format!("unordered-multisell-probe#{i}"), l2));
         }
     }
-    ctx.ev.rule = "each accepted generated ledger P (plus prefixes written out of date order with a day of two separate SELL lines, continued by 15–44 later lines and compared leg for leg; a long single-security history is cut at its 29th–33rd purchase, its remainder becoming S) × a generated continuation S (no CAPRETURN/ACCUMULATION; in half the cases with a SPLIT/UNSPLIT of a security that P holds, by preference one whose purchases P's capital events adjusted) shifted to start 31, 32 or more days after P's last transaction (exactly 31 in a third of the cases): the real calculate() on P ++ S must either reject with an error dated in S or list, for every disposal dated within P, the same legs, costs, proceeds and gain as calculate() on P. Correspondence: P ++ S vs the model. Non-trivial = P has a disposal in its last 30 days and S contains a purchase of the same security; distinct by ledger text.".into();
+    // a 30-day match across a SPLIT, at quantities where the buy-back is exactly (or not quite) used up; continued,
+    // long after, by a consolidation whose ratio has no finite decimal reciprocal: nothing of the earlier match
+    // may move, and the ledger stays accepted
+    {
+        use rust_decimal::Decimal;
+        for (i, (sold, back)) in [(30i64, 60i64), (17, 34), (30, 40), (25, 50), (9, 18), (30, 61)].iter().enumerate() {
+            for (j, ratio) in [3i64, 6, 7, 9, 11, 13].iter().enumerate() {
+                if (i + j) % 2 == 1 && ctx.tier == Tier::Quick { continue; }
+                let d0 = ledger::d(2022, 1 + (i as u32 * 2) % 12, 3 + j as u32);
+                let l: Ledger = vec![
+                    GTx::new(d0, "ACME", Kind::Buy, Decimal::from(100), Decimal::from(10), Decimal::ZERO),
+                    GTx::new(d0 + Duration::days(60), "ACME", Kind::Sell, Decimal::from(*sold), Decimal::from(12), Decimal::ZERO),
+                    GTx::new(d0 + Duration::days(64), "ACME", Kind::Split, Decimal::TWO, Decimal::ZERO, Decimal::ZERO),
+                    GTx::new(d0 + Duration::days(69), "ACME", Kind::Buy, Decimal::from(*back), Decimal::from(6), Decimal::ZERO),
+                ];
+                cases.push((format!("late-consolidation#{ratio}#{i}"), l));
+            }
+        }
+    }
+    ctx.ev.rule = "each accepted generated ledger P (plus 30-day matches across a SPLIT continued long after by a consolidation with an inexact ratio; plus prefixes written out of date order with a day of two separate SELL lines, continued by 15–44 later lines and compared leg for leg; a long single-security history is cut at its 29th–33rd purchase, its remainder becoming S) × a generated continuation S (no CAPRETURN/ACCUMULATION; in half the cases with a SPLIT/UNSPLIT of a security that P holds, by preference one whose purchases P's capital events adjusted) shifted to start 31, 32 or more days after P's last transaction (exactly 31 in a third of the cases): the real calculate() on P ++ S must either reject with an error dated in S or list, for every disposal dated within P, the same legs, costs, proceeds and gain as calculate() on P. Correspondence: P ++ S vs the model. Non-trivial = P has a disposal in its last 30 days and S contains a purchase of the same security; distinct by ledger text.".into();
     let ex = run_impl::wide_exemptions();
     let mut r = Rng::new(ctx.seed ^ 0xC12);
     let mut scfg = cfg.clone();
@@ -90,6 +109,11 @@ pub fn run(ctx: &mut Ctx) {
         let forced_block: Option<()> = if name.starts_with("unordered-multisell") { Some(()) } else { None };
         let mut s = match forced {
             Some(t) => { ctx.ev.count("long-history-cut"); t }
+            None if name.starts_with("late-consolidation") => {
+                ctx.ev.count("late-consolidation-prefix");
+                let ratio: i64 = name.split('#').nth(1).and_then(|x| x.parse().ok()).unwrap_or(3);
+                vec![GTx::new(last + Duration::days(400), "ACME", Kind::Unsplit, rust_decimal::Decimal::from(ratio), rust_decimal::Decimal::ZERO, rust_decimal::Decimal::ZERO)]
+            }
             None if forced_block.is_some() => {
                 ctx.ev.count("unordered-multisell-prefix");
                 let k = if name.contains("probe") { 1 + r.below(9) as i64 } else { 15 + r.below(30) as i64 };
